@@ -103,7 +103,7 @@ type delivery struct {
 func deliver(r *core.Run, a, f *Party, base *Issued) delivery {
 	d := delivery{base: base}
 	cur := a.Current()
-	switch k := r.Intn(13, "channel-op"); k {
+	switch k := r.Intn(14, "channel-op"); k {
 	case 0, 1:
 		d.bytes, d.op, d.genuine = base.Bytes, "genuine", true
 	case 2:
@@ -174,6 +174,18 @@ func deliver(r *core.Run, a, f *Party, base *Issued) delivery {
 		payload, _ := proto.Marshal(g)
 		d.bytes, _ = proto.Marshal(&epb.VMLaunchEndorsement{SerializedUefiGolden: payload, Signature: base.Proto.Signature})
 		d.op = "payload-edit-keep-signature"
+	case 13:
+		// the genuine signature in another encoding of the same integer: zero bytes prepended (or a
+		// leading zero byte dropped). RSA signatures have exactly the modulus' length; the bytes
+		// carried are not a valid signature, whatever number they spell.
+		le := proto.Clone(base.Proto).(*epb.VMLaunchEndorsement)
+		if len(le.Signature) > 0 && le.Signature[0] == 0 && r.Bool("drop-leading-zero") {
+			le.Signature, d.op = le.Signature[1:], "signature:leading-zero-dropped"
+		} else {
+			k := 1 + r.Intn(8, "zeros")
+			le.Signature, d.op = append(make([]byte, k), le.Signature...), fmt.Sprintf("signature:%d-zero-bytes-prepended", k)
+		}
+		d.bytes, _ = proto.Marshal(le)
 	case 12:
 		// a certificate genuinely issued by the right root key, but with another signature
 		// algorithm (legal X.509), certifying a key that signs the endorsement with the matching
@@ -379,7 +391,9 @@ func callEntry(r *core.Run, entry int, d delivery, cpool *x509.CertPool, rootLis
 			mrtd = ms[0].GetMrtd()
 		}
 	}
-	net.Objects = map[string][]byte{SnpURL(meas): d.bytes}
+	// the network also serves what a deployment's would: the well-known default root location
+	// (here: the genuine authority's root). Only a caller that names no root file asks for it.
+	net.Objects = map[string][]byte{SnpURL(meas): d.bytes, gcetcbendorsement.DefaultRootURL: pemOf(a.Root)}
 	switch entry {
 	case 0:
 		return verify.Endorsement(d.bytes, &verify.Options{RootsOfTrust: cpool, Now: t}), "verify.Endorsement", false
